@@ -231,13 +231,68 @@ def corrupt(rng, forest, part):
     return f, p, kind
 
 
+def ucase_term(u_):
+    """pre/post record of the driver -> Coq ucase term (None if the geometry is not exact / not representable)."""
+    box = L.Box(float.fromhex(u_["rs"]), *u_["n"])
+    def geo(c):
+        if c is None:
+            return None
+        g = [float.fromhex(v) for v in c["g"]]
+        return {"x": g[0], "y": g[1], "z": g[2], "w": g[3], "pt": c["pt"], "addr": c.get("addr"), "oct": [geo(d) for d in c["oct"]],
+                "m": 0., "mx": 0., "my": 0., "mz": 0.}
+    pre = [geo(c) for c in u_["forest"]]
+    post = [geo(c) for c in u_["post_forest"]]
+    if not exact_ok(box, post):
+        return None
+    # pre-state geometry: children exact relative to their parents (roots may be anywhere: stale roots keep their geometry)
+    allpos = []
+    for q in u_["parts"]:
+        allpos.append((float.fromhex(q["x"]), 0.0 if q["y"] == "nan" else float.fromhex(q["y"]), float.fromhex(q["z"])))
+    postpos = [tuple(float.fromhex(v) for v in q) for q in u_["post_pos"]]
+    sc = L.scale_for(box, allpos + postpos)
+    if sc is None:
+        return None
+    ue, uu, Lv = sc
+    try:
+        ids = {}
+        cells = []
+        def number(c):
+            if c is None:
+                return
+            ids[c["addr"]] = len(cells); cells.append(c)
+            for d in c["oct"]:
+                number(d)
+        for c in pre:
+            number(c)
+        def cterm(c):
+            kids = "; ".join("None" if d is None else "(Some %d%%nat)" % ids[d["addr"]] for d in c["oct"])
+            return "(Some (mkC (%s, %s, %s) %s [%s]))" % (zlit(L.to_units(c["x"], ue)), zlit(L.to_units(c["y"], ue)), zlit(L.to_units(c["z"], ue)), zlit(c["pt"]), kids)
+        # geometry of the pre-state must be the exact child geometry too (levels are implied by depth in the model)
+        if not exact_ok(box, pre):
+            return None
+        roots = "; ".join("None" if c is None else "(Some %d%%nat)" % ids[c["addr"]] for c in pre)
+        parts = []
+        for q, pp in zip(u_["parts"], allpos):
+            if q["c"] not in ids:
+                return None
+            parts.append("(mkP (%s, %s, %s) %s %d%%nat)" % (zlit(L.to_units(pp[0], ue)), zlit(L.to_units(pp[1], ue)), zlit(L.to_units(pp[2], ue)),
+                                                         "true" if q["y"] == "nan" else "false", ids[q["c"]]))
+        expf = "; ".join("None" if c is None else "(Some %s)" % shape_term(c) for c in post)
+        expp = "; ".join("(%s, %s, %s)" % tuple(zlit(L.to_units(v, ue)) for v in pp) for pp in postpos)
+    except (AssertionError, OverflowError, ValueError, KeyError):
+        return None
+    return "(mkU %d %d%%nat %d %d %d %s [%s] [%s] [%s] %d%%nat [%s] [%s])" % (
+        uu, Lv, box.n[0], box.n[1], box.n[2], "true" if u_["boxed"] else "false", "; ".join(cterm(c) for c in cells), roots, "; ".join(parts),
+        u_["N"], expf, expp)
+
+
 def shape_term(c):
     if c["pt"] >= 0:
         return "(Leaf %d%%nat)" % c["pt"]
     return "(Node %d [%s])" % (-c["pt"], "; ".join("None" if d is None else "(Some %s)" % shape_term(d) for d in c["oct"]))
 
 
-HEAD = ("From Coq Require Import List ZArith PrimFloat Bool.\nFrom RV Require Import Common.Num Common.FloatNum C15.Boundary C15.Tree C15.Run.\n"
+HEAD = ("From Coq Require Import List ZArith PrimFloat Bool.\nFrom RV Require Import Common.Num Common.FloatNum C15.Boundary C15.Tree C15.Run C15.Update C15.Run2.\n"
         "Import ListNotations.\n")
 
 
@@ -259,7 +314,7 @@ def run(ctx):
     libdir = ctx.lib()
     rng = ctx.rng
     check_layout(ctx)
-    proved = ctx.prove("C15", extra_targets=["C15/Run.vo"])
+    proved = ctx.prove("C15", extra_targets=["C15/Run.vo", "C15/Run2.vo"])
 
     ntree = ctx.scale(112, 900)
     nbound = ctx.scale(60, 500)
@@ -274,6 +329,8 @@ def run(ctx):
 
     totals = {}
     dist = {}
+    ucases = []       # (label, term)
+    n_upd_reinsert = n_upd_removed = 0
     tcases = []       # (label, term)
     gcases = []
     bcases = []
@@ -322,6 +379,14 @@ def run(ctx):
                     exp = []
                     L.gravity_dump_preorder(c, exp)
                     gcases.append("(gravF %s %s, %s)" % (parts, shape_term(c), vlib.flist([v for g in exp for v in g])))
+        for u_ in res.get("upd", []):
+            if len(ucases) < ctx.scale(60, 400):
+                t = ucase_term(u_)
+                if t is not None:
+                    nflag = sum(1 for q in u_["parts"] if q["y"] == "nan")
+                    moved = sum(1 for a, b in zip(u_["parts"], u_["post_pos"]) if (a["x"], a["y"], a["z"]) != tuple(b))
+                    ucases.append(("flagged=%d moved_slots=%d N=%d" % (nflag, moved, u_["N"]), t))
+                    n_upd_removed += nflag; n_upd_reinsert += moved
         for b in res.get("bcases", []):
             fx = lambda h: vlib.fhex(float.fromhex(h))
             bx, by, bz = [fx(v) for v in b["box"]]
@@ -342,13 +407,17 @@ def run(ctx):
     for c0 in range(0, len(tcases), chunk):
         body = HEAD + "Open Scope Z_scope.\nDefinition cases : list tcase := [\n" + ";\n".join(t for _, t in tcases[c0:c0 + chunk]) + "].\nEval vm_compute in (bad_t cases).\n"
         jobs.append(("c15_tree_%d" % (c0 // chunk), body, "tree", c0))
+    uchunk = 8
+    for c0 in range(0, len(ucases), uchunk):
+        body = HEAD + "Open Scope Z_scope.\nDefinition cases : list ucase := [\n" + ";\n".join(t for _, t in ucases[c0:c0 + uchunk]) + "].\nEval vm_compute in (bad_u cases).\n"
+        jobs.append(("c15_upd_%d" % (c0 // uchunk), body, "upd", c0))
     fchunk = 40
     for name, lst in (("grav", gcases), ("bnd", bcases)):
         for c0 in range(0, len(lst), fchunk):
             body = HEAD + "Open Scope float_scope.\nDefinition cases : list (list float * list float) := [\n" + ";\n".join(lst[c0:c0 + fchunk]) + "].\nEval vm_compute in (bad_cases cases).\n"
             jobs.append(("c15_%s_%d" % (name, c0 // fchunk), body, name, c0))
     outs = vlib.coq_eval_many([(j[0], j[1]) for j in jobs], timeout=600)
-    bad = {"tree": [], "grav": [], "bnd": []}
+    bad = {"tree": [], "grav": [], "bnd": [], "upd": []}
     corr_ok = True
     for (name, ok, out), j in zip(outs, jobs):
         b = vlib.parse_coq_list_nat(out) if ok else None
@@ -360,11 +429,15 @@ def run(ctx):
     ctx.obligation("correspondence:C15 tree dumps: Coq wf_b == Python transcription (%d real dumps all accepted, %d corrupted dumps of which %d rejected) "
                    "and exact Coq model tree (insert 0..N-1) == library tree" % (n_real, n_corrupt, n_corrupt_false),
                    corr_ok and not bad["tree"] and n_real > 0, "mismatching cases: %s" % [(i, tcases[i][0]) for i in bad["tree"][:10]])
+    ctx.obligation("correspondence:C15 heap model of the in-place update (swap-removal + back pointer, re-insertion during the walk, derefinement) == "
+                   "reb_simulation_update_tree on %d pre/post dumps: same tree (shape, counts, leaf indices), same particle order, same N "
+                   "(%d flagged particles removed, %d array slots changed by removal/re-insertion)" % (len(ucases), n_upd_removed, n_upd_reinsert),
+                   corr_ok and not bad["upd"] and len(ucases) > 0, "mismatching cases: %s" % [(i, ucases[i][0]) for i in bad["upd"][:10]])
     ctx.obligation("correspondence:C15 gravity data model(binary64) == dumped m,mx,my,mz of every cell bit-for-bit on %d root cells" % len(gcases),
                    corr_ok and not bad["grav"] and len(gcases) > 0, "mismatching cases: %s" % bad["grav"][:10])
     ctx.obligation("correspondence:C15 boundary model(binary64) == reb_boundary_check bit-for-bit on %d steps (periodic/shear/open removal order)" % len(bcases),
                    corr_ok and not bad["bnd"] and len(bcases) > 0, "mismatching cases: %s" % bad["bnd"][:10])
-    ctx.traces = (len(tcases) + len(gcases) + len(bcases)) if corr_ok else 0
+    ctx.traces = (len(tcases) + len(gcases) + len(bcases) + len(ucases)) if corr_ok else 0
 
     # ---- violations found by the searcher
     for fk, (spec, fail) in sorted(viol.items()):
@@ -373,7 +446,8 @@ def run(ctx):
     ctx.extra["input_distribution"] = dict(sorted(dist.items())[:80])
     ctx.extra["searcher_totals"] = totals
     ctx.extra["coq_cases"] = {"tree_dumps_real": n_real, "tree_dumps_corrupted": n_corrupt, "corrupted_rejected": n_corrupt_false,
-                              "dumps_skipped_inexact_geometry": skipped_inexact, "gravity_root_cells": len(gcases), "boundary_steps": len(bcases)}
+                              "dumps_skipped_inexact_geometry": skipped_inexact, "gravity_root_cells": len(gcases), "boundary_steps": len(bcases),
+                              "update_pre_post_cases": len(ucases), "update_flagged_removed": n_upd_removed, "update_slots_changed": n_upd_reinsert}
     ctx.rule = ("one case = one history (boundary type x root layout x gravity/collision tree mode x root size x N x speed); every step of a "
                 "history is an evaluation; distinct by (kind, boundary, layout, modes, root size, N, speed); non-trivial: particles cross cells and "
                 "root boxes (searcher_totals.root_crossings), are removed/added/merged, wrap several boxes per step (multiwraps)")
@@ -382,8 +456,11 @@ def run(ctx):
         "the tree theorems are about the exact (integer-unit) functional model: binary64 cell geometry equals it only when c +- w/4 is not rounded "
         "(root sizes with few significant bits; checked per dump with rationals before a dump is given to Coq); for other root sizes only the "
         "binary64 Python replay of the same algorithm is compared with the library",
-        "the in-place update (swap-removal, re-insertion during the walk, derefinement) is NOT proved: it is validated by checking every dump with "
-        "the proved-sound checker / its cross-checked Python transcription and by comparing with the canonical tree",
+        "the in-place update (swap-removal, re-insertion during the walk, derefinement) is modelled as a heap model (coq/C15/Update.v) compared with "
+        "reb_simulation_update_tree on pre/post dumps; proved: stable state => the walk changes nothing (heap model); flagged-only removals => "
+        "tree of the survivors, re-indexed (functional identity-based model; its agreement with the heap model is validated, not proved); the "
+        "general case with re-insertion during the walk is validated only (heap model == library, checker on every dump, canonical-tree comparison, "
+        "which rests on C15_wf_is_fresh_build for tie-free dumps)",
         "identical coordinates are excluded (the library reports an error and leaves the particle outside the tree)",
         "known open defects (known_findings.json): particle exactly on the upper box border with several root boxes; particle exactly on a cell "
         "centre whose child centre is rounded: the re-insertion descends into the leaf being vacated (particle lost from the tree / crash)",
